@@ -18,6 +18,17 @@ def pymodFloat (x m : Float) : Float :=
   else if fm == 0.0 then 0.0     -- copysign(0.0, m) for m > 0
   else fm
 
+/-- `hypot` without intermediate overflow/underflow (libm's differs by at most an ulp or two) -/
+def hypotFloat (x y : Float) : Float :=
+  let ax := x.abs
+  let ay := y.abs
+  let m := if ax < ay then ay else ax
+  let n := if ax < ay then ax else ay
+  if m == 0.0 then 0.0
+  else
+    let r := n / m
+    m * (1.0 + r * r).sqrt
+
 def floatToInt (x : Float) : Int := x.toInt64.toInt
 
 instance : Trig Float where
@@ -28,6 +39,7 @@ instance : Trig Float where
   acos := Float.acos
   atan2 := Float.atan2
   sqrt := Float.sqrt
+  hypot := hypotFloat
   pi := 3.141592653589793
   floor := fun x => floatToInt x.floor
   trunc := floatToInt
